@@ -123,7 +123,8 @@ def pow5 (n : Nat) : BF :=
   if n ≤ 27 then .fin false (5 ^ n) 0
   else pow5Loop n (n - 27) (.fin false (5 ^ 27) 0) (.fin false 5 0)
 
-def isDig (c : Char) : Bool := '0' ≤ c && c ≤ '9'
+/-- `'0' <= ch && ch <= '9'`. -/
+def isDig (c : Char) : Bool := c.isDigit
 def digVal (c : Char) : Nat := c.toNat - '0'.toNat
 
 /-- State of `nat.scan` (base 10, `fracOk`): mantissa so far, digit count,
